@@ -541,7 +541,7 @@ func (cid *CIDFont) GetWidthForCID(cidValue int) float64 {
 			if wr.Widths != nil {
 				// Individual widths
 				idx := cidValue - wr.StartCID
-				if idx < len(wr.Widths) {
+				if idx >= 0 && idx < len(wr.Widths) {
 					return wr.Widths[idx]
 				}
 			} else {
